@@ -141,7 +141,7 @@ def replay_radius(data):
         compare(which, res["cart_pos"], res["element"], [o], False)
         for m in range(len(res["cart_pos"])):
             k = int(res["uc_atom"][m])
-            if not np.allclose(uc.to_cartesian((ucf[k] + res["cell"][m])[None])[0], res["cart_pos"][m], atol=1e-8):
+            if not np.allclose(uc.to_cartesian((ucf[k] + res["cell"][m])[None])[0], res["cart_pos"][m], rtol=0, atol=1e-8):
                 bad.append("uc_atom/cell of a reported row do not give its position")
                 break
     elif which == "atomic_surroundings":
@@ -150,7 +150,7 @@ def replay_radius(data):
         for i, s in enumerate(res):
             nb = s["neighbours"]
             compare("atomic_surroundings(site %d)" % i, nb["cart_pos"], nb["element"], [cart[i]], True)
-            if len(nb["cart_pos"]) and not np.allclose(nb["distance"], np.linalg.norm(nb["cart_pos"] - cart[i], axis=1), atol=1e-8):
+            if len(nb["cart_pos"]) and not np.allclose(nb["distance"], np.linalg.norm(nb["cart_pos"] - cart[i], axis=1), rtol=0, atol=1e-8):
                 bad.append("reported distances are not the distances of the reported positions")
     else:
         cart = uc.to_cartesian(frac)
@@ -183,7 +183,7 @@ def replay_slab(data):
     for row in range(len(s["frac_pos"])):
         k = row % s["n_uc"]
         cell = np.round(s["frac_pos"][row] - frac[k]).astype(int)
-        if not np.allclose(s["frac_pos"][row] - frac[k], cell, atol=1e-9):
+        if not np.allclose(s["frac_pos"][row] - frac[k], cell, rtol=0, atol=1e-9):
             bad.append("row %d is not a lattice translate of unit-cell atom %d" % (row, k))
             break
         if not np.allclose(s["cell"][row], cell) or s["element"][row] != [6, 1][k] or s["asym_atom"][row] != k:
@@ -230,11 +230,13 @@ def _call_sites(mods):
             ("molecule_environment", molecule_environment), ("atom_group_surroundings", atom_group_surroundings)]
 
 
-def lemma_A(ctx, mods):
+def lemma_A(ctx, mods, only=None):
     ctx.bound("(A) completeness: no bound on the cell (any invertible direct matrix with its inverse), radius > 0, centres anywhere; "
               "1-3 centres per query")
     tasks, meta = [], []
     for name, site in _call_sites(mods):
+        if only is not None and name not in only:
+            continue
         ex = Explorer()
         ex.fresh_rounding = True
         uc, D, Iv, L = symbolic_cell(mods, ex)
@@ -311,7 +313,73 @@ def lemma_A(ctx, mods):
                                  data, replay_radius):
                     reported.add(name)
             elif rr.verdict != "cex":
-                ctx.mark_inconclusive("A:%s axis %d" % (name, i), "relaxed lemma not proved and exact search found no counterexample")
+                # second search: concrete cells with rational lengths, displacement along one Cartesian axis, integers kept (LIRA)
+                found = None
+                for mt in [m_ for m_ in meta if m_[0] == name and m_[5] == i]:
+                    found = _concrete_cell_search(ctx, mt)
+                    if found:
+                        break
+                if found and name not in reported:
+                    found["which"] = name
+                    if ctx.violation("radius:frac_radius:%s" % name, "%s searches too few cells: an image within the radius lies outside the slab (axis %d)" % (name, i),
+                                     found, replay_radius):
+                        reported.add(name)
+                elif not found:
+                    ctx.mark_inconclusive("A:%s axis %d" % (name, i), "relaxed lemma not proved and neither search found a counterexample")
+
+
+def _concrete_cell_search(ctx, mt):
+    """counterexample search for the completeness lemma on concrete cells (rational lengths), displacement along +-x, +-y, +-z,
+    symbolic centres / radius, integer cell index kept: linear integer-real arithmetic"""
+    name, ex, p, centres, j, i, side, n_i, lo, hi, d, f, r, D, Iv, L = mt
+    cells = [np.array([[4, 0, 0], [0, 5, 0], [0, 0, 6]], dtype=object), np.array([[5, 0, 0], [0, 6, 0], [3, 0, 4]], dtype=object),
+             np.array([[13, 0, 0], [0, 3, 0], [0, 0, 7]], dtype=object)]
+    for M in cells:
+        Mf = [[Fraction(int(x)) for x in row] for row in M]
+        from .c01 import _inv3
+        inv = _inv3(Mf)
+        lens = [Fraction(int(round(math.sqrt(sum(float(x) ** 2 for x in row))))) for row in Mf]
+        subs = []
+        for a in range(3):
+            for b in range(3):
+                subs.append((D[a, b].t, z3.RealVal(Mf[a][b])))
+                subs.append((Iv[a, b].t, z3.RealVal(inv[3 * a + b])))
+            subs.append((L[a].t, z3.RealVal(lens[a])))
+        for axis in range(3):
+            for sgn in (1, -1):
+                tt = z3.Real("t_disp")
+                dsub = [(d[k].t, (sgn * tt if k == axis else z3.RealVal(0))) for k in range(3)]
+                allsub = subs + dsub
+                g_i = sum((centres[j][k] + d[k]) * Iv[k, i] for k in range(3))
+                hyp = list(p.pc) + [f[i].t >= 0, f[i].t < 1, tt >= 0, tt <= r.t * z3.RealVal("9/10"), r.t >= 1, r.t <= 12, z3.IsInt((g_i - f[i]).t)]
+                hyp += [z3.And(o[k].t >= -10, o[k].t <= 10) for o in centres for k in range(3)]
+                viol = (n_i > hi[i]).t if side == "upper" else (n_i <= lo[i] - 1).t
+                forms = hyp + [viol]
+                old_drop = ex.drop_isint
+                ex.drop_isint = False
+                forms = forms + ex.cone(forms)
+                ex.drop_isint = old_drop
+                forms = [z3.substitute(z3.substitute(fm, *dsub), *subs) for fm in forms]
+                s_ = z3.Solver()
+                s_.set("timeout", 20000)
+                s_.add(*forms)
+                t0 = time.time()
+                res = str(s_.check())
+                ctx.record("A:%s axis %d %s: counterexample search on the cell %s, displacement along %s%s (integers kept)" % (name, i, side, [[int(x) for x in row] for row in M], "+" if sgn > 0 else "-", "xyz"[axis]),
+                           {"sat": "counterexample", "unsat": "holds", "unknown": "unknown"}[res], seconds=time.time() - t0, nontrivial=True, solver="z3 " + z3.get_version_string())
+                if res == "sat":
+                    mdl = s_.model()
+                    Dv = np.array([[float(x) for x in row] for row in Mf])
+                    cs = np.array([[float(model_value(mdl, o[k].t)) for k in range(3)] for o in centres])
+                    tv = float(model_value(mdl, tt))
+                    dv = np.array([sgn * tv if k == axis else 0.0 for k in range(3)])
+                    pnt = cs[j] + dv
+                    invf = np.linalg.inv(Dv)
+                    g = pnt @ invf
+                    cf = cs @ invf
+                    return {"D": Dv.tolist(), "r": float(model_value(mdl, r.t)), "origin": cs[0].tolist(), "frac": (cf - np.floor(cf)).tolist() + [list(g - np.floor(g))],
+                            "Z": [6] * len(cs) + [8], "centres": cs.tolist(), "p": pnt.tolist()}
+    return None
 
 
 def _extract_A(centres, j, d, r, D):
@@ -418,3 +486,13 @@ def run(ctx):
     secs += [("C:" + w, (lambda c, w=w: c03_select.lemma_C(c, mods, only=w)))
              for w in ("atoms_in_radius", "atomic_surroundings", "molecule_environment", "atom_group_surroundings")]
     ctx.parallel_sections(secs)
+
+
+def dependency_sections(which):
+    """sections other properties run because they rest on these lemmas (the violations keep C03's replay functions)"""
+    out = []
+    if "slab" in which:
+        out.append(("dependency: slab layout (C03 lemma B)", lambda c: lemma_B(c, Mods())))
+    if "molecule_environment" in which:
+        out.append(("dependency: cells searched by molecule_environment (C03 lemma A)", lambda c: lemma_A(c, Mods(), only={"molecule_environment"})))
+    return out
